@@ -523,7 +523,7 @@ def verify_function(key: str, repo: Repo, reg, timeout_s=20) -> FunctionResult:
         if not is_init:
             for src in invs:
                 st.assume(I.contract_truth(src, st))
-        for src in c.requires:
+        for src in c.requires + c.ghost_requires:
             st.assume(I.contract_truth(src, st))
         pre = st.fork()
         I.frame.pre = pre
